@@ -45,8 +45,9 @@ CheckInput(v) ==
   \cup (IF v.hung THEN {"RequestAnswered"} ELSE {})
   \cup (IF v.by.done /\ v.by.code # 200 THEN {"BystanderServed"} ELSE {})
   \cup (IF Dead(v) \/ v.hung THEN {} ELSE
-          \* every request other than a note is answered by at least one reply
-          (IF Dem(v) \in {"reply", "err"} /\ v.fr = <<>> THEN {"RequestAnswered"} ELSE {})
+          \* every request other than a note that carries an id is answered by at least one reply; so is every request that
+          \* is malformed / unauthorised / out of sequence / ill-addressed, with or without an id
+          (IF v.fr = <<>> /\ (Dem(v) = "err" \/ (Dem(v) = "reply" /\ v.rid # "")) THEN {"RequestAnswered"} ELSE {})
           \* malformed / unauthorised / out-of-sequence / ill-addressed requests get an error code (3xx where the model says so)
           \cup (IF Dem(v) = "err" /\ v.fr # <<>> /\ (\E c \in Codes(v) : c < 300) THEN {"BadRequestGetsErrorCode"} ELSE {})
           \* replies echo the request id: no reply carries a foreign id, and a handler-stage reply carries the request's
